@@ -31,9 +31,9 @@
    exitCodeOnce.Do" went away when the observer made "project exit code fixed" observable; (a) "every EBegin
    is preceded by its ESpawn" went away when the model staged instance creation (Model.v `stage`): EBegin i
    is accepted only after do_spawn (waitGroup.Add) of i. *)
-From Coq Require Import List ZArith NArith Bool.
+From Coq Require Import List ZArith NArith Bool Lia.
 From PC.Base Require Import Assoc.
-From PC.Sup Require Import Model Monitors Check LemC04l RelC04 EnC04 EnC04p EnC04b EnC04q EnC04c EnC04d.
+From PC.Sup Require Import Model Monitors Check LemC04l RelC04 EnC04 EnC04p EnC04b EnC04q EnC04c EnC04d EnC04e.
 Import ListNotations.
 
 (* for ALL configurations (any dependency graph, policies, exit_on_* settings, several triggers),
@@ -164,13 +164,26 @@ Theorem C04_instance_begun_or_staged : forall cs ord evs s i x,
 Proof. intros cs ord evs s i x H. exact (k_ex _ (K_reach cs ord evs s H) i x). Qed.
 Print Assumptions C04_instance_begun_or_staged.
 
+(* A half-created instance (stage 0, 1, 2: created / Pending written / registered, not yet spawned) belongs to a
+   thread that is inside the creation of exactly that process, and a thread has at most one such instance. *)
+Theorem C04_staged_has_creator : forall cs ord evs s i c k,
+  accept (init cs ord) evs = Some s -> get i (stage s) = Some (c, k) -> k < 3 ->
+  (exists x, get i (insts s) = Some x /\ creates (get_thread s c) (nm x) = true) /\
+  (forall i2 k2, get i2 (stage s) = Some (c, k2) -> k2 < 3 -> i2 = i).
+Proof.
+  intros cs ord evs s i c k H Hi Hk. pose proof (St_reach cs ord evs s H) as HS. split; [exact (s_cr _ HS i c k Hi Hk)|].
+  intros i2 k2 H2 Hk2. exact (s_uniq _ HS i2 i c k2 k H2 Hi Hk2 Hk).
+Qed.
+Print Assumptions C04_staged_has_creator.
+
 (* ---- progress of the quiet supervisor ------------------------------------------------------------------- *)
 (* "Run() never waits forever on a process that can no longer start", as a deadlock-freedom (enabledness)
    statement: for an acyclic dependency graph (ranked cs rank, the definition of Sup/EnC12.v), in every reachable
-   state s of a QUIET supervisor -
+   state s of a QUIET supervisor (quiet2 s) -
      q_cmd   no command is alive and no exit is waiting to be collected,
      q_lock  the registry lock is free,
-     q_stage no instance is half-created (every stage entry is at 3 = spawned),
+     q2_api  no thread is inside a creation: no Run() call is in its spawn loop with a process left to start and no
+             Start/Restart call is between its check and its spawn (creates (get_thread s th) n = false),
      q_idle  no instance goroutine is inside a stop execution or ShutDownProject,
      q_gone  every goroutine that is gone has ended its process (l_done) -
    in which something of Run()'s wait group is outstanding (~ wg_quiet s), some instance-side step is enabled:
@@ -179,16 +192,17 @@ Print Assumptions C04_instance_begun_or_staged.
    the dependency order - a blocked instance's dependency instance exists (C04_blocked_on_configured_dependency)
    and is ended (then the latch is released, R6) or, by induction, something is enabled.
    Where Run() itself stands is irrelevant for the statement (with wg_quiet it could return: C04_run_can_return).
-   q_stage and q_gone are premises because the corresponding invariants are FALSE in the model: a thread may
-   create several instances of one name and spawn only one (an orphan at stage 2 is registered and can be waited
-   for), and an instance stopped while Pending whose stop concluded "not running" (known windows F32/F38) leaves
-   without ever being ended.  This is an enabledness statement, not a fairness/termination proof. *)
+   q_gone is a premise because the corresponding invariant is FALSE in the model: an instance stopped while Pending
+   whose stop concluded "not running" (known windows F32/F38) leaves without ever being ended.  (The former
+   premise "no instance is half-created" is now derived: since ENewInst requires that the creating thread has
+   no other stage entry below 3, a half-created instance belongs to a thread that is inside a creation -
+   C04_staged_has_creator.)  This is an enabledness statement, not a fairness/termination proof. *)
 Theorem C04_progress_partial : forall cs ord rank evs s,
-  ranked cs rank -> accept (init cs ord) evs = Some s -> quiet s -> ~ wg_quiet s ->
+  ranked cs rank -> accept (init cs ord) evs = Some s -> quiet2 s -> ~ wg_quiet s ->
   exists th e s', step s (th, e) = Some s' /\
     ((exists i, e = EBegin i /\ get th (thinst s) = None) \/
      (exists i x, get th (thinst s) = Some i /\ get i (insts s) = Some x /\ own_event2 (pc x) e = true)).
-Proof. exact progress_partial. Qed.
+Proof. exact progress_partial2. Qed.
 Print Assumptions C04_progress_partial.
 
 (* Regression for the former model looseness "EBegin without ESpawn": the 10-event history in which a
@@ -302,4 +316,29 @@ Proof.
   pose proof E as E0. vm_compute in E0. injection E0 as E0.
   assert (Hst : get 1%N (stage s) = Some (1%N, 3)) by (subst s; vm_compute; reflexivity).
   destruct (C04_spawned_can_begin _ _ _ _ _ _ E Hst) as (th & s' & _ & Hs'). eauto.
+Qed.
+
+(* (5) C04_progress_partial on the final state of w_evs: A is inside onProcessEnd, B waits for A to become healthy;
+   the supervisor is quiet, Run()'s wait group is not, and some instance-side step is enabled *)
+Example w_conf_ranked : ranked w_conf (fun n => N.to_nat n).
+Proof.
+  intros n c d Hg Hin. unfold w_conf in Hg. unfold get in Hg.
+  destruct (N.eqb_spec 0 n) as [<-|_].
+  - injection Hg as <-. destruct Hin.
+  - destruct (N.eqb_spec 1 n) as [<-|_]; [|discriminate]. injection Hg as <-. cbn in Hin. destruct Hin as [<-|[]]. cbn. lia.
+Qed.
+Example C04_progress_partial_ex :
+  exists s th e s', accept (init w_conf false) w_evs = Some s /\ quiet2 s /\ ~ wg_quiet s /\ step s (th, e) = Some s'.
+Proof.
+  destruct (accept (init w_conf false) w_evs) as [s|] eqn:E; [|vm_compute in E; discriminate].
+  pose proof E as E0. vm_compute in E0. injection E0 as E0.
+  assert (Hq : quiet2 s) by (apply quiet2_b_spec; subst s; vm_compute; reflexivity).
+  assert (Hpc : option_map pc (get 2%N (insts s)) = Some (IBlocked 0%N CHealthy 1%N [])) by (subst s; vm_compute; reflexivity).
+  assert (Ht : get 3%N (thinst s) = Some 2%N) by (subst s; vm_compute; reflexivity).
+  assert (Hn : ~ wg_quiet s).
+  { intros [_ Q2]. destruct (get 2%N (insts s)) as [x|] eqn:Hx; [|discriminate Hpc]. cbn in Hpc. injection Hpc as Hpc.
+    destruct (Q2 _ _ _ Ht Hx) as ([Hp|Hp] & _); congruence. }
+  clear E0 Hpc Ht.
+  destruct (C04_progress_partial _ _ _ _ _ w_conf_ranked E Hq Hn) as (th & e & s' & Hs' & _).
+  exists s, th, e, s'. split; [reflexivity|split; [exact Hq|split; [exact Hn|exact Hs']]].
 Qed.
